@@ -36,6 +36,9 @@ def bounded_module(prop):
 
 
 def bounded_replay(mod, prop, check, case):
+    if check.endswith('.corpus_arrangements'):
+        from bounded import corpus_schemas
+        return corpus_schemas.replay(case)
     if '.corpus_' in check:
         from bounded import corpus
         return corpus.replay(prop, case)
@@ -50,6 +53,9 @@ def run_bounded(prop, tier, seed, findings, only=None):
         out = mod.run(tier, seed, open_f)
         from bounded import corpus
         if prop in corpus.FAMILY: out = list(out) + [corpus.family(prop, tier, seed, open_f)]
+        if prop == 'C09':
+            from bounded import corpus_schemas
+            out = list(out) + [corpus_schemas.family(tier, seed, open_f)]
     except Exception:
         return [dict(name=f'{prop}.bounded', crash=traceback.format_exc()[-2500:], cases=0, failures=[], known={}, scope='', exhaustive=False)]
     if only: out = [b for b in out if only in b['name']]
